@@ -175,7 +175,7 @@ KOf(fam) ==
                 "digamma.rec", "gammad1.half", "besseli.bigx"} -> 128
     [] fam \in {"logbesseli.half", "logbesseli.log", "gamma.rec", "gamma.refl", "gamma.dup", "lgamma.rec"} -> 256
     [] fam \in {"gammap.d1", "gammap.lowerp", "gammap.upperq"} -> 1024
-    [] fam \in {"polygamma.highrec"} -> 512
+    [] fam \in {"polygamma.highrec", "polygamma.halfhigh"} -> 512
     [] fam \in {"logbesseli.negseries", "logbesseli.rec2", "logbesseli.series", "besseli.series"} -> 256
     [] OTHER -> 64
 
@@ -715,7 +715,8 @@ LogAddLinS == LET t == Log(AddR(Exp(X1), Exp(X2))) IN
   SchemaRec("logadd.lin", KOf("logadd.lin"), 2, LAL(X1, X2), t, AddR(Abs(t), Log(AddR(One, Exp(Neg(Abs(SubR(X1, X2))))))), Zero,
             << <<Rg(RInt(-40), RInt(40), 6), Rg(RInt(-40), RInt(40), 6)>>, <<Rg(RInt(-800), RInt(800), 2), Rg(RInt(-800), RInt(800), 2)>> >>, <<>>)
 LinPairs == << <<0, 0>>, <<64, 64>>, <<0, 64>>, <<64, 0>>, <<-64, 29>>, <<29, -64>>, <<1, 0>>, <<0, 1>>, <<640, 0>>, <<0, 640>>, <<2368, 0>>, <<0, 2432>>,
-               <<0, -47680>>, <<-47680, 0>>, <<45376, 45312>>, <<-45376, -45312>>, <<51200, -51200>>, <<64000, 63936>>, <<-64000, -64064>>, <<-128, -64>> >>
+               <<0, -47680>>, <<-47680, 0>>, <<45376, 45312>>, <<-45376, -45312>>, <<51200, -51200>>, <<64000, 63936>>, <<-64000, -64064>>, <<-128, -64>>,
+               <<-2560, 0>>, <<0, -2560>>, <<-6400, 0>>, <<-44800, 0>>, <<0, -2432>>, <<-2560, 1>> >>
 LogAddLinP == [j \in 1..Len(LinPairs) |-> <<Dy(LinPairs[j][1], 6), Dy(LinPairs[j][2], 6)>>]
 (* LogSub(x, y) = log(e^x - e^y), x > y; conditioning (|x| e^x + |y| e^y)/(e^x - e^y) *)
 LogSubLinS == LET t == Log(SubR(Exp(X1), Exp(X2))) IN
@@ -724,7 +725,7 @@ LogSubLinS == LET t == Log(SubR(Exp(X1), Exp(X2))) IN
             << <<Rg(RInt(-40), RInt(40), 6), Rg(RInt(-40), RInt(40), 6)>>, <<Rg(RInt(-800), RInt(800), 2), Rg(RInt(-800), RInt(800), 2)>> >>,
             <<SubR(SubR(X1, X2), QF(1, 128))>>)
 SubPairs == << <<64, 0>>, <<64, 63>>, <<65, 64>>, <<128, 64>>, <<0, -64>>, <<29, -64>>, <<640, 0>>, <<2368, 0>>, <<2432, 0>>, <<0, -47680>>,
-               <<45376, 45312>>, <<-45312, -45376>>, <<51200, -51200>>, <<64000, 63936>>, <<-64000, -64064>>, <<-64, -128>>, <<44, 0>>, <<45, 0>> >>
+               <<45376, 45312>>, <<-45312, -45376>>, <<51200, -51200>>, <<64000, 63936>>, <<-64000, -64064>>, <<-64, -128>>, <<44, 0>>, <<45, 0>>, <<0, -2560>>, <<0, -6400>> >>
 LogSubLinP == [j \in 1..Len(SubPairs) |-> <<Dy(SubPairs[j][1], 6), Dy(SubPairs[j][2], 6)>>]
 (* arguments that are logarithms of rationals a, b: LogAdd(log a, log b) = log(a + b); the rounding of the  *)
 (* two logarithms contributes |log a| a/(a+b) + |log b| b/(a+b)                                             *)
@@ -841,6 +842,9 @@ ClassList == <<
   [fam |-> "class.logbesseli", fn |-> "LogBesselI", args |-> <<One, Zero>>, want |-> "ninf"],
   [fam |-> "class.logbesseli", fn |-> "LogBesselI", args |-> <<QF(5, 2), Zero>>, want |-> "ninf"],
   [fam |-> "class.logbesseli", fn |-> "LogBesselI", args |-> <<QF(-1, 2), Zero>>, want |-> "pinf"],
+  [fam |-> "class.logbesseli", fn |-> "LogBesselI", args |-> <<One, QI(-2)>>, want |-> "undefined"],
+  [fam |-> "class.logbesseli", fn |-> "LogBesselI", args |-> <<Two, QI(-2)>>, want |-> "finite"],
+  [fam |-> "class.logbesseli", fn |-> "LogBesselI", args |-> <<QI(-3), QI(-2)>>, want |-> "undefined"],
   [fam |-> "class.logadd", fn |-> "LogAdd", args |-> <<NInf, NInf>>, want |-> "ninf"],
   [fam |-> "class.logadd", fn |-> "LogAdd", args |-> <<PInf, One>>, want |-> "pinf"],
   [fam |-> "class.logadd", fn |-> "LogAdd", args |-> <<One, PInf>>, want |-> "pinf"],
@@ -989,6 +993,65 @@ ZetaRefl(s) == LET sc == RSub(ROne, s)
                    t  == MulR(MulR(MulR(PowR(Two, Q(s)), PowR(Pi, Q(RNeg(sc)))), Sin(MulR(Pi, Q(RDiv(s, RInt(2)))))), MulR(GamL(Q(sc)), ZetaL(sc))) IN
   EqRec("zeta.refl", KOf("zeta.refl"), <<s>>, ZetaL(s), t, MulR(Abs(t), AddR(One, MulR(Q(sc), Log(MulR(Two, Pi))))), Zero,
         IF RLt(RInt(21), sc) THEN "lgamma form" ELSE "gamma form")
+
+(* ---- fourth seeding wave: further edges of the algorithm selection ------------------------------------------------- *)
+(* Q(a, x), Gamma(a, x) for integer a < 30 and 700 <= x < 745: the finite-sum formula must end at x < 709 (beyond, e^-x is *)
+(* subnormal while Q is still an ordinary number); closed form e^-x sum x^k/k!                                            *)
+QBigXAs == <<10, 20, 25, 29>>
+QBigXXs == <<700, 708, 709, 710, 720, 740, 744>>
+QBigCond(a, x) == AddR(AddR(One, QI(RAbs(a - 1 - x))), MulR(QI(a), Abs(Log(QF(x, a)))))
+GammaQBigX(a, x) == LET q == MulR(Exp(Neg(QI(x))), ExpSumT(a, QI(x))) IN
+  EqRec("gammaq.bigx", KOf("gammaq.bigx"), <<RInt(a), RInt(x)>>, GQL(QI(a), QI(x)), q, MulR(q, QBigCond(a, x)), Zero, IF x < 709 THEN "finite sum" ELSE "x >= 709")
+GammaUpperBigX(a, x) == LET q == MulR(FactT(a - 1), MulR(Exp(Neg(QI(x))), ExpSumT(a, QI(x)))) IN
+  EqRec("gammaupper.bigx", KOf("gammaq.bigx"), <<RInt(a), RInt(x)>>, GUL(QI(a), QI(x)), q, MulR(q, QBigCond(a, x)), Zero, IF x < 709 THEN "finite sum" ELSE "x >= 709")
+(* half-integer a: recurrence Q(a+1, x) = Q(a, x) + x^a e^-x / Gamma(a+1) between library values (erfc underflows in the oracle there) *)
+QBigXHalfMs == <<12, 24, 28>>                          \* a = m + 1/2
+GammaQBigXHalf(m, x) == LET a == QF(2 * m + 1, 2)  a1 == QF(2 * m + 3, 2)
+                            c == DivR(MulR(PowR(QI(x), a), Exp(Neg(QI(x)))), GammaHalfT(m + 1)) IN
+  EqRec("gammaq.bigxhalf", KOf("gammaq.bigx"), <<R(2 * m + 1, 2), RInt(x)>>, GQL(a1, QI(x)), AddR(GQL(a, QI(x)), c),
+        MulR(Abs(GQL(a1, QI(x))), QBigCond(m + 1, x)), Zero, IF x < 709 THEN "finite sum" ELSE "x >= 709")
+
+(* small a, tiny x: Gamma(a, x) = (Gamma(1+a) - x^a)/a + x^(a+1)/(a+1) - ..., Q = a Gamma(a, x)/Gamma(1+a);                      *)
+(* log Gamma(1+a) = -gamma a + sum_{k=2}^{6} (-1)^k zeta(k) a^k/k + R, |R| <= 1.2 a^7/7 (zeta(5) through the library)            *)
+(* implementation: x < 2.2e-16 leading term ONLY for a > 1 (for small a, P ~ 1 and Q = 1 - P would cancel); small-a series for Q  *)
+LgSmallT(a) == AddR(Neg(MulR(EGamma, a)), SumR([kk \in 1..5 |-> MulR(QF(IF kk % 2 = 1 THEN 1 ELSE -1, kk + 1), MulR(ZetaConstT(kk + 1), PowR(a, QI(kk + 1))))]))
+SmallAEs == <<10, 20, 29, 34>>                            \* a = 2^-e
+SmallXEs == <<53, 60, 100, 200>>                          \* x = 2^-e
+UpperSmallT(a, x) == AddR(DivR(SubR(Exp(LgSmallT(a)), PowR(x, a)), a), DivR(PowR(x, AddR(a, One)), AddR(a, One)))
+UpperSmallSlack(a, x) == AddR(MulR(QF(12, 70), PowR(a, QI(6))), PowR(x, Two))
+GammaUpperSmall(ae, xe) == LET a == P2(0 - ae)  x == P2(0 - xe) IN
+  EqRec("gammaupper.smalla", KOf("gammaupper.smalla"), <<RInt(0 - ae), RInt(0 - xe)>>, GUL(a, x), UpperSmallT(a, x), Abs(UpperSmallT(a, x)),
+        UpperSmallSlack(a, x), "small a, tiny x")
+GammaQSmall(ae, xe) == LET a == P2(0 - ae)  x == P2(0 - xe)
+                           t == DivR(MulR(a, UpperSmallT(a, x)), Exp(LgSmallT(a))) IN
+  EqRec("gammaq.smalla", KOf("gammaupper.smalla"), <<RInt(0 - ae), RInt(0 - xe)>>, GQL(a, x), t, Abs(t),
+        MulR(a, MulR(Two, UpperSmallSlack(a, x))), "small a, tiny x")
+
+(* BesselI / LogBesselI at tiny x: leading terms of the power series, relative accuracy (log I_0(x) ~ x^2/4 is itself tiny)     *)
+TinyBesV2s == <<0, 1, 2, 4>>                              \* 2 v
+TinyBesXEs == <<20, 27, 30, 40>>
+TinyBesT(v2, xe) == LET x == P2(0 - xe)  y == DivR(MulR(x, x), QI(4))
+                        ser == AddR(One, AddR(DivR(y, QF(v2 + 2, 2)), DivR(MulR(y, y), MulR(Two, MulR(QF(v2 + 2, 2), QF(v2 + 4, 2))))))
+                    IN MulR(DivR(PowR(DivR(x, Two), QF(v2, 2)), GammaAny2T(v2 + 2)), ser)
+TinyBesSlack(xe) == PowR(P2(0 - xe), QI(6))
+BesselTinyX(v2, xe) == EqRec("besseli.tinyx", KOf("besseli.tinyx"), <<R(v2, 2), RInt(0 - xe)>>, BIL(QF(v2, 2), P2(0 - xe)), TinyBesT(v2, xe),
+                             TinyBesT(v2, xe), MulR(TinyBesT(v2, xe), TinyBesSlack(xe)), "tiny x")
+LogBesselTinyX(v2, xe) == EqRec("logbesseli.tinyx", KOf("logbesseli.tinyx"), <<R(v2, 2), RInt(0 - xe)>>, LBIL(QF(v2, 2), P2(0 - xe)), Log(TinyBesT(v2, xe)),
+                                \* log I_0(x) ~ x^2/4 is obtained as exp(log(x^2/4)): conditioning |log(x^2/4)|
+                                IF v2 = 0 THEN MulR(Abs(Log(TinyBesT(v2, xe))), AddR(One, QI(2 * xe))) ELSE Abs(Log(TinyBesT(v2, xe))),
+                                TinyBesSlack(xe), "tiny x")
+
+(* negative argument, integer order of both signs and parities: I_n(-x) = (-1)^n I_n(x) (bit-exact: the code negates) *)
+NegXNs == <<-4, -3, -2, -1, 0, 1, 2, 3, 5, 8>>
+NegXXs == <<R(1, 2), RInt(2), RInt(10)>>
+BesselNegX(n, x) == LET t == MulR(QI(IF n % 2 = 0 THEN 1 ELSE -1), BIL(QI(n), Q(x))) IN
+  EqRec("besseli.negx", 0, <<RInt(n), RNeg(x)>>, BIL(QI(n), Q(RNeg(x))), t, Abs(t), Zero, IF n < 0 THEN "negative order" ELSE "non-negative order")
+
+(* psi_n(1/2) = (-1)^(n+1) n! (2^(n+1) - 1) zeta(n+1) for high orders (zeta by its direct sum) and the recurrence to x = 3/2 *)
+HalfHighNs == <<60, 61, 62, 63, 64, 65, 70, 100, 140>>
+PolyHalfHighT(n) == MulR(QI(SgnP(n)), MulR(FactT(n), MulR(SubR(PowR(Two, QI(n + 1)), One), ZetaSumT(RInt(n + 1)))))
+PolygammaHalfHigh(n) == EqRec("polygamma.halfhigh", KOf("polygamma.halfhigh"), <<RInt(n), R(1, 2)>>, PolyL(n, Half), PolyHalfHighT(n), Abs(PolyHalfHighT(n)),
+                              MulR(Abs(PolyHalfHighT(n)), PowR(QI(ZetaSumN), QI(0 - n))), "x = 1/2")
 
 (* ======================================================================= *)
 (* PURITY: the value of a special function is a function of its arguments    *)
